@@ -44,6 +44,13 @@ func init() {
 			if g.chance(1, 5) {
 				p.Faults = append(p.Faults, Fault{Kind: "stall", On: "step", N: 20 + g.pick(400)})
 			}
+			if g.chance(1, 4) {
+				// a store write that fails without effect, or takes effect while its acknowledgement is lost
+				p.Profile = "adversarial-delivery+op-faults"
+				for i := 0; i <= g.pick(2); i++ {
+					p.Faults = append(p.Faults, Fault{Kind: []string{"op-unavail", "op-acklost"}[g.pick(2)], On: "write", N: 5 + g.pick(150)})
+				}
+			}
 			return p
 		},
 		Arm: func(s *Sys) {
